@@ -31,6 +31,10 @@ type Cfg struct {
 	Extra   string
 
 	J *journal.J
+
+	// Abort makes Cases skip the remaining cases (set after a progress violation: every further
+	// stalled case would cost another watchdog period without adding information).
+	Abort atomic.Bool
 }
 
 func Parse() *Cfg {
@@ -117,7 +121,7 @@ func (c *Cfg) Cases(stream string, n int, fn func(idx int, slot *journal.Slot), 
 			slot := c.J.Slot()
 			for {
 				i := int(next.Add(1) - 1)
-				if i >= n {
+				if i >= n || c.Abort.Load() {
 					return
 				}
 				runOne(stream, i, slot, fn, onPanic)
